@@ -78,6 +78,9 @@ def absorb_sim(chk, c, res, retry_log=None):
     """Returns (record, anomaly). Own-property VKEYs become violations; others are foreign notes."""
     rec, anomaly = vlib.absorb(chk, res, replay_extra={"case": {k: v for k, v in c.items() if k != "exe"}})
     m = HANG_RE.search(res.out)
+    if "BUDGET-EXCEEDED" in res.out:
+        chk.inconc_case("event budget exceeded on %s (thrashing speculation, GVT still advancing): no verdict" % res.tag)
+        return rec, "budget"
     if "MEMORY-BACKSTOP" in res.out:
         chk.inconc_case("memory backstop (3 GiB resident) on %s: unbounded speculation, no verdict" % res.tag)
         return rec, "membackstop"
